@@ -19,19 +19,21 @@ name=$(grep -o 'func Test[A-Za-z0-9_]*' "$DEMO" | head -1 | sed 's/func //')
 ( cd $W/$place && timeout 600 go test -vet=off -count=1 -run "^$name\$" . >/tmp/ev-$ID-$K.demo1 2>&1 ) && demo_mut=pass || demo_mut=fail
 ( cd $W && git apply -R "$DIFF" )
 ( cd $W/$place && timeout 600 go test -vet=off -count=1 -run "^$name\$" . >/tmp/ev-$ID-$K.demo2 2>&1 ) && demo_clean=pass || demo_clean=FAIL
-git -C /repo worktree remove --force $W
+rm -f $W/$place/zz_demo_test.go
 echo "CONFIRM $ID/$K: suite_with_mutation=$suite demo_with_mutation=$demo_mut demo_without=$demo_clean"
-if [ "$suite" != pass ] || [ "$demo_mut" != fail ] || [ "$demo_clean" != pass ]; then echo "RESULT $ID/$K: NOT CONFIRMED"; exit 4; fi
-# run the checks against it
-[ -z "$(git -C /repo status --porcelain)" ] || { echo "/repo dirty"; exit 2; }
-git -C /repo apply "$DIFF" || exit 3
+if [ "$suite" != pass ] || [ "$demo_mut" != fail ] || [ "$demo_clean" != pass ]; then echo "RESULT $ID/$K: NOT CONFIRMED"; git -C /repo worktree remove --force $W; exit 4; fi
+# run the checks against the scratch worktree carrying the change (development override of the driver; /repo is not touched;
+# equivalent to: git -C /repo apply patch.diff; ./check ID; git -C /repo checkout -- .)
+( cd $W && git apply "$DIFF" ) || exit 3
 cd /verif
+CHECKS=${CHECK_IDS:-$ID}
 t0=$(date +%s)
-./check $ID --tier quick > /tmp/ev-$ID-$K.quick 2>&1; q=$?
+q=0
+for c in $CHECKS; do VERIF_DEV_REPO=$W ./check $c --tier quick > /tmp/ev-$ID-$K.quick.$c 2>&1; r=$?; [ $r -eq 1 ] && q=1; [ $r -eq 2 ] && [ $q -eq 0 ] && q=2; done
 t1=$(date +%s)
 th=-
-if [ $q -ne 1 ] && [ -z "$QUICK_ONLY" ]; then ./check $ID --tier thorough > /tmp/ev-$ID-$K.thorough 2>&1; th=$?; fi
+if [ $q -ne 1 ] && [ -z "$QUICK_ONLY" ]; then VERIF_DEV_REPO=$W ./check $ID --tier thorough > /tmp/ev-$ID-$K.thorough 2>&1; th=$?; fi
 t2=$(date +%s)
-git -C /repo checkout -- . ; git -C /repo clean -fdq
+git -C /repo worktree remove --force $W
 echo "RESULT $ID/$K: quick_exit=$q ($((t1-t0))s) thorough_exit=$th ($((t2-t1))s)"
-grep -h -m3 "VIOLATION\|INCONCLUSIVE" /tmp/ev-$ID-$K.quick /tmp/ev-$ID-$K.thorough 2>/dev/null | cut -c1-300
+grep -h -m3 "VIOLATION\|INCONCLUSIVE" /tmp/ev-$ID-$K.quick.* /tmp/ev-$ID-$K.thorough 2>/dev/null | cut -c1-300
